@@ -20,9 +20,10 @@ BIG = ['b4', 'g44', 'n44']
 BLOCK = 2048
 
 
-def shards(tier, seed):
+def shards(tier, seed, spread=BLOCK, cyclic_grids=None, small=None):
+    cyclic_grids = BIG if cyclic_grids is None else cyclic_grids
     out = [dict(extra=True)]
-    for g in SMALL:
+    for g in (SMALL if small is None else small):
         n = len(cv.space_of(g))
         full = (1 << n) - 1
         step = 32 if n >= 8 else full
@@ -41,13 +42,13 @@ def shards(tier, seed):
             # 2048 masks spread over the whole range (stride 32), the
             # offset chosen by the seed
             off = (seed * 7 + 3 * BIG.index(g)) % 32
-            for lo in range(0, BLOCK, 128):
+            for lo in range(0, spread, 128):
                 out.append(dict(grid=g, spread=[off, lo, lo + 128],
                                 backend='cudd', care='TRUE+hints'))
             # and EVERY predicate whose covering problem (care = TRUE) has
             # a non-empty cyclic core, i.e. needs branching
-            for lo in range(1, 65536, 2048):
-                out.append(dict(grid=g, cyclic=[lo, min(lo + 2047, 65535)],
+            for lo in range(1, 65536 if g in cyclic_grids else 0, 512):
+                out.append(dict(grid=g, cyclic=[lo, min(lo + 511, 65535)],
                                 backend='cudd', care='TRUE+hints'))
     return out
 
